@@ -3,7 +3,8 @@
    by the constant draw u (min + u*(max-min) for the ranged form), so every call is deterministic.
    Events {c, ph, u, x, y, yd}: ph = learning phase, y = output of the stochastic-rounding quantizer, yd = output of
    the same configuration with round-to-nearest.   Configurations (CFG_FILE) carry fam:
-     "fixed" QFixed record              "po2"  QPo2 record                 "eq"  only the inference equality is judged *)
+     "fixed" QFixed record              "po2"  QPo2 record                 "eq"  only the inference equality is judged
+     "sign1" [int]: quantized_linear(1, int) *)
 EXTENDS QStoch, Json, IOUtils, TLC
 Tr == ndJsonDeserialize(IOEnv.TRACE_FILE)
 Cf == JsonDeserialize(IOEnv.CFG_FILE)
@@ -69,11 +70,24 @@ SbTraining(c, ev) ==
   IN IF ~(\E k \in {-1, 1} : Eq(ev.y, Ste32(ev.x, <<k, 0>>))) THEN <<"training_output_is_not_a_code">>
      ELSE IF ~Eq(ev.y, Ste32(ev.x, <<q, 0>>)) THEN <<"code_is_not_sign_of_probability_minus_draw">>
      ELSE <<>>
+\* ---------------------------------------------------------------- one-bit sign format of quantized_linear, training phase
+\* codes +-2^(int-1); v = clip(x / 2^int, -1/2, 1/2) - 1/2 in [-1, 0] is rounded stochastically (floor if frac < u else
+\* ceil) and shifted back: -half iff v = -1, or v < 0 and v + 1 < u.  Inputs are multiples of 2^(int-6): all sums exact.
+Sign1Training(c, ev) ==
+  LET t == Scale2(ev.x, -c.int)
+      cl == DClip(t, <<-1, -1>>, Half)
+      frac == Add32(cl, Half)                                 \* v + 1
+      neg == frac[1] = 0 \/ (Less(frac, One) /\ Less(frac, ev.u))
+      y == Norm(ev.y)
+  IN IF y \notin {<<1, c.int - 1>>, <<-1, c.int - 1>>} THEN <<"not_adjacent_code">>
+     ELSE IF y # <<IF neg THEN -1 ELSE 1, c.int - 1>> THEN <<"wrong_direction_for_draw">>
+     ELSE <<>>
 Verdicts(ev) ==
   LET c == Cf[ev.c] IN
   IF ev.ph = 0 THEN (IF Eq(ev.y, ev.yd) THEN <<>> ELSE <<"inference_differs_from_deterministic">>)
   ELSE IF c.fam = "fixed" THEN (IF InDomFixed(c, ev.x) THEN FixedTraining(c, ev) ELSE <<>>)
   ELSE IF c.fam = "po2" THEN (IF InDomPo2(c, ev.x) THEN Po2Training(c, ev) ELSE <<>>)
+  ELSE IF c.fam = "sign1" THEN Sign1Training(c, ev)
   ELSE IF c.fam = "sb" THEN (IF ev.x[1] = 0 \/ Lead(ev.x) > -100 THEN SbTraining(c, ev) ELSE <<>>)
   ELSE <<>>
 Init == i = 1
